@@ -349,35 +349,7 @@ func c05pop(c *Ctx, pf map[*ssa.Function]int) {
 	if pop == nil {
 		return
 	}
-	permit := pop.Params[1]
-	// live blocks under permit=false
-	cutEdges := map[engine.Edge]bool{}
-	for _, b := range pop.Blocks {
-		if iff := engine.IfOf(b); iff != nil {
-			cv, neg := engine.StripNot(iff.Cond)
-			if cv == permit {
-				if neg {
-					cutEdges[engine.Edge{From: b, Succ: 1}] = true
-				} else {
-					cutEdges[engine.Edge{From: b, Succ: 0}] = true
-				}
-			}
-		}
-	}
-	live := map[*ssa.BasicBlock]bool{}
-	var walk func(b *ssa.BasicBlock)
-	walk = func(b *ssa.BasicBlock) {
-		if live[b] {
-			return
-		}
-		live[b] = true
-		for i, s := range b.Succs {
-			if !cutEdges[engine.Edge{From: b, Succ: i}] {
-				walk(s)
-			}
-		}
-	}
-	walk(pop.Blocks[0])
+	pop, _, live := holdBackFunction(pop)
 
 	// chain of the returned slice
 	retChain := map[ssa.Value]bool{}
@@ -573,6 +545,10 @@ func c05callers(c *Ctx) {
 				top = top.Parent()
 			}
 			key := fmtf("%s|Responder.handle", c.name(f))
+			if !c.isAnchor(top, "internal/state.(*State).flushResponses", "internal/state.(*State).PushResponder") && c.onlyCalledFrom(top, 2, "internal/state.(*State).flushResponses") {
+				R.Pass("R05.3", key, P.Pos(cs.Pos()), "invoked from a helper that only flushResponses calls")
+				continue
+			}
 			if !c.isAnchor(top, "internal/state.(*State).flushResponses", "internal/state.(*State).PushResponder") {
 				R.Fail("R05.3", key, P.Pos(cs.Pos()), "Responder.handle (which mutates the snapshot and produces EXISTS/EXPUNGE/FETCH) is invoked outside flushResponses/PushResponder")
 				continue
@@ -781,6 +757,13 @@ func c05liveness(c *Ctx, pf map[*ssa.Function]int) {
 					if closureFlushes(fn, depth) {
 						out[cs.Instr] = true
 					}
+				}
+			}
+			// a helper of the session package that itself flushes (permitting EXPUNGE) on every path to a nil
+			// return, not-selected edges excepted
+			if sc := cs.Common().StaticCallee(); sc != nil && sc != f && len(sc.Blocks) > 0 && sc.Parent() == nil && strings.HasSuffix(engine.PkgPathOf(sc), "internal/session") {
+				if _, isFlushLike := pf[sc]; !isFlushLike && closureFlushes(sc, depth) {
+					out[cs.Instr] = true
 				}
 			}
 		}
@@ -1101,4 +1084,70 @@ func (c *Ctx) expungeHoldbackAlwaysRecordsID(pop *ssa.Function) (int, string) {
 		}
 	}
 	return n, ""
+}
+
+// holdBackFunction resolves where the hold-back decision is made: popResponders itself, evaluated with
+// permitExpunge=false (edges taken only when it is true are cut), or - when popResponders merely
+// dispatches on the parameter - the method of State it calls and returns on the permitExpunge=false path.
+// It returns that function, the cut edges and the blocks that are live under them.
+func holdBackFunction(pop *ssa.Function) (*ssa.Function, map[engine.Edge]bool, map[*ssa.BasicBlock]bool) {
+	var permit ssa.Value
+	if len(pop.Params) > 1 {
+		permit = pop.Params[1]
+	}
+	for depth := 0; ; depth++ {
+		cutEdges := map[engine.Edge]bool{}
+		if permit != nil {
+			for _, b := range pop.Blocks {
+				if iff := engine.IfOf(b); iff != nil {
+					cv, neg := engine.StripNot(iff.Cond)
+					if cv == permit {
+						if neg {
+							cutEdges[engine.Edge{From: b, Succ: 1}] = true
+						} else {
+							cutEdges[engine.Edge{From: b, Succ: 0}] = true
+						}
+					}
+				}
+			}
+		}
+		live := map[*ssa.BasicBlock]bool{}
+		var walk func(b *ssa.BasicBlock)
+		walk = func(b *ssa.BasicBlock) {
+			if live[b] {
+				return
+			}
+			live[b] = true
+			for i, s := range b.Succs {
+				if !cutEdges[engine.Edge{From: b, Succ: i}] {
+					walk(s)
+				}
+			}
+		}
+		walk(pop.Blocks[0])
+		if depth >= 2 || len(typeTests(pop, "internal/state", "expunge")) > 0 {
+			return pop, cutEdges, live
+		}
+		// a pure dispatcher: follow the call whose result is returned on a live path
+		var next *ssa.Function
+		for _, r := range engine.Returns(pop) {
+			if !live[r.Block()] || len(r.Results) != 1 {
+				continue
+			}
+			engine.Backward(r.Results[0], engine.FlowOpts{}, func(x ssa.Value) bool {
+				if call, ok := x.(*ssa.Call); ok && live[call.Block()] {
+					if sc := call.Call.StaticCallee(); sc != nil && len(sc.Blocks) > 0 && engine.RecvNamed(sc) != nil && engine.RecvNamed(sc).Obj().Name() == "State" {
+						if len(typeTests(sc, "internal/state", "expunge")) > 0 {
+							next = sc
+						}
+					}
+				}
+				return true
+			})
+		}
+		if next == nil {
+			return pop, cutEdges, live
+		}
+		pop, permit = next, nil
+	}
 }
